@@ -54,6 +54,15 @@ CLAIMED = {
  "C13": ("model_checking", "exhaustive enumeration of document programs (call histories on the real PDF writer) validated by an independent PDF reader",
          "Every history of up to 3 (4) calls over a 25-call alphabet (pages, 6 path styles incl. alpha and gradients, TrueType and CFF text incl. >95 glyphs, images, links, metadata with ASCII / escapes / Latin-1 / UTF-16 containing CR ( ) \\ bytes, language) x Compress x SubsetFonts is written by the real writer on a fresh instance and closed; an independent reader (tokenizer, xref, object resolution, filters, page tree, content-stream operator table and state machine, text strings) checks every clause of the statement on every document.",
          "trusted: internal/pdfread (written from ISO 32000-1), compress/zlib, image/jpeg; documents longer than the depth bound and fonts other than the two bundled ones are outside the bound", "DESIGN.md §4 C13"),
+ "C12": ("model_checking", "exhaustive enumeration of drawing programs (histories of styled DrawPath calls under a view and coordinate-system menu) x back-ends; independent interpreters of the emitted SVG/PDF/PS vs the display list the rasterizer semantics define",
+         "All programs of depth <= 2 (3) over 26 styles (differing pairwise in one caching-relevant field) x 5 paths x 4 views x 2 coordinate systems are recorded on a Canvas and rendered by the real SVG, PDF (compressed or not) and PS/EPS back-ends; the emitted bytes are interpreted by independent interpreters (XML + path/transform/style parsers; pdfread + a full graphics-state machine with ExtGState alpha and shadings; a mini PostScript interpreter incl. the emitted prologue; any unknown operator is a violation) into display lists; expected and actual lists are composited at 3840 decidable sample points and compared (colour within 3/255), plus paint-operation counts and the effective line width exactly; the real rasterizer is tallied against the expected list.",
+         "trusted: the three interpreters, internal/pdfread; canvas's own Stroke/Dash materialise stroke regions on both sides (C04/C05 judge them); dash lengths are multiples of the stroke width as the rasterizer does; PS paints with alpha or gradients are not compared (documented as unsupported)", "DESIGN.md §4 C12"),
+ "C16": ("exploration", "exhaustive enumeration of all strings of <= 4 (5) tokens over a 10-token alphabet x faces x widths x alignments x indents through the real text layout",
+         "Every string over {a, V, fi, space, soft hyphen, no-break space, newline, hyphen, a Hebrew letter, ideographic space} x 3 faces (+ a RichText face change) x 5 widths x 4 alignments x 2 indent/line-stretch settings is laid out by NewTextBox/RichText; from WalkLines/WalkSpans: every character exactly once in logical order (only line-ending whitespace dropped, soft hyphen at a break shown as '-'), lines stacked by their heights, spans disjoint, no line beyond the box unless Overflows, the alignment equations per line, newlines start lines, Bounds/Heights enclose the spans.",
+         "trusted: the shaper (go-text) and fribidi port as environment; the natural advance of a stretched space is read from the no-wrap layout of the same string; sub-font-unit overshoot of justified lines (2 font units per glyph) is tolerance, observed maximum in the evidence", "DESIGN.md §5 C16"),
+ "C17": ("exploration", "exhaustive enumeration of all item sequences up to length 5 (6) over a box/glue/penalty alphabet x 8 widths against a brute-force Knuth-Plass reference over all legal breakings",
+         "Every sequence over {Box 1/2/3, glue variants, Penalty 0 / 50 flagged with width / -50 / -inf / +inf} plus GlyphsToItems macro groups, word paragraphs with hyphens and independent glue per gap, followed by the finishing glue and forced break, x widths 2..9 (and other tunable sets): the returned breakpoints are strictly increasing, legal, contain every forced break and end at the final one; reported Width/Ratio equal the recomputed ones; if a feasible breaking exists the result is feasible and demerit-minimal (brute force over all subsets of legal breakpoints), otherwise complete, relaxed no further than needed, and overflow only if some line cannot be shrunk to fit.",
+         "trusted: internal/oracle/knuthplass.go (conventions from the paper/TeX: glue after a break discarded up to the next box, start = fitness class 1, unflagged)", "DESIGN.md §5 C17"),
 }
 CUSTOM_CMD = {"C20": ("scripts/check_c20.sh quick", "scripts/check_c20.sh thorough")}
 REASON_PENDING = "check not built yet in this session (planned in DESIGN.md §9); not claimed until it exists and is green"
